@@ -74,11 +74,14 @@ type Target struct {
 }
 
 func (t *Target) BuildRedirectURL(requestURL *url.URL) {
+	// RawPath starts from the escaped path of the target: the decoded one is
+	// not a valid encoding if it needs escaping, and the encoding of the
+	// request's path which is inserted below would be dropped with it
 	t.RedirectURL = &url.URL{
 		Scheme:   t.URL.Scheme,
 		Host:     t.URL.Host,
 		Path:     t.URL.Path,
-		RawPath:  t.URL.Path,
+		RawPath:  t.URL.EscapedPath(),
 		RawQuery: t.URL.RawQuery,
 	}
 	// treat case of $path not separated with a / from host
